@@ -149,6 +149,50 @@ func ruleSortedResult(c *Ctx, r *RuleResult, fnName string) {
 			}
 			return true
 		}
+		// a fresh slice filled with s[i] = i (+ constant) over a unit-step sweep and not written otherwise
+		if mk, isMk := v.(*ssa.MakeSlice); isMk {
+			P := NewProver(c, fn)
+			loops := loopsOf(fn)
+			okFill, nFill := true, 0
+			for _, b := range fn.Blocks {
+				for _, in := range b.Instrs {
+					hit := false
+					for l := range f.iw[in] {
+						for o := range objs {
+							if l.o == o.o {
+								hit = true
+							}
+						}
+					}
+					if !hit || !reaches(where[in], where[at], ipos{nil, -1}) {
+						continue // not a write to this slice, or one that cannot happen before this point
+					}
+					st, isSt := in.(*ssa.Store)
+					if !isSt {
+						okFill = false
+						continue
+					}
+					ia, isIA := st.Addr.(*ssa.IndexAddr)
+					if !isIA || stripAll(ia.X) != ssa.Value(mk) {
+						okFill = false
+						continue
+					}
+					d := P.poly(st.Val).add(P.poly(ia.Index), -1)
+					if _, isK := d.isConst(); !isK {
+						okFill = false
+						continue
+					}
+					if _, sweep := tSweep(P, loops, ia.Index, b); !sweep {
+						okFill = false
+						continue
+					}
+					nFill++
+				}
+			}
+			if okFill && nFill == 1 {
+				return true
+			}
+		}
 		for _, b := range fn.Blocks {
 			for _, in := range b.Instrs {
 				call, ok := in.(*ssa.Call)
@@ -283,6 +327,7 @@ func init() {
 			so := &RuleResult{Rule: "SORTED"}
 			ruleSortedResult(ctl, so, "compctl.BadUnsortedComponent")
 			ruleSortedResult(ctl, so, "compctl.GoodSortedComponent")
+			ruleSortedResult(ctl, so, "compctl.GoodAllVertices")
 			return []*RuleResult{mc, so}
 		},
 	})
